@@ -13,7 +13,7 @@ theorem withNewCas_feeds (s : State) (c : String) (fn : TxnFn) :
       | some x =>
         match fn (hlcNow s.hlc s.phys) s.now s.nextRowId x.docs with
         | .inr (_, _, some e, _) =>
-          s.feeds.map (fun f => if f.coll = c ∧ ¬ f.dump then { f with pending := f.pending ++ [.ev e x.id f.keysOnly] } else f)
+          s.feeds.map (fun f => if f.coll = c ∧ ¬ f.dump ∧ ¬ f.stopped then { f with pending := f.pending ++ [.ev e x.id f.keysOnly] } else f)
         | _ => s.feeds := by
   unfold withNewCas
   cases hx : s.coll? c with
